@@ -84,3 +84,40 @@ def keysets(t, path=()):
         for i, v in enumerate(t):
             out.update(keysets(v, path + (i,)))
     return out
+
+
+def instances(obj, spec, path):
+    """Live sub-aggregators that instantiate the spec node at `path` (a template slot of a sparse container is
+    instantiated once per existing bin, possibly never)."""
+    cur = [(obj, spec)]
+    i = 0
+    path = list(path)
+    while i < len(path):
+        slot = path[i]
+        nxt = []
+        for o, s in cur:
+            k = s["k"]
+            if k in ("Label", "UntypedLabel"):
+                key = path[i + 1]
+                if key in o.pairs:
+                    nxt.append((o.pairs[key], s["pairs"][key]))
+            elif k in ("Index", "Branch"):
+                j = path[i + 1]
+                if j < len(o.values):
+                    nxt.append((o.values[j], s["values"][j]))
+            elif slot in ("underflow", "overflow", "nanflow", "cut"):
+                nxt.append((getattr(o, slot), s[slot]))
+            elif slot == "value":
+                if k == "Bin":
+                    nxt += [(v, s["value"]) for v in o.values]
+                elif k in ("SparselyBin", "Categorize"):
+                    nxt += [(v, s["value"]) for v in o.bins.values()]
+                elif k in ("CentrallyBin", "IrregularlyBin", "Stack"):
+                    nxt += [(v, s["value"]) for _, v in o.bins]
+                elif k == "Fraction":
+                    nxt += [(o.numerator, s["value"]), (o.denominator, s["value"])]
+        i += 2 if cur and cur[0][1]["k"] in ("Label", "UntypedLabel", "Index", "Branch") else 1
+        cur = nxt
+        if not cur:
+            return []
+    return [o for o, _ in cur]
